@@ -39,9 +39,9 @@ class Contract:
 
     def _text(self, canary=False):
         out = []
-        for r in self.requires:
+        for r in self.requires or ['1']:
             out.append('__CPROVER_requires(%s)' % r)
-        for e in self.ensures:
+        for e in self.ensures or ['1']:
             out.append('__CPROVER_ensures(%s)' % e)
         if canary:
             out.append('__CPROVER_ensures(0)')
